@@ -108,13 +108,24 @@ fn perturbations<G: Group>(msg: &Msg<G>, parts: &ProofParts) -> Vec<(Fault, usiz
         v.push((Fault::Promise { j, with: PromiseRepl::PlusOne }, 0, format!("promise[{}] + 1", j)));
         v.push((Fault::Promise { j, with: PromiseRepl::MinusOne }, 0, format!("promise[{}] - 1", j)));
         v.push((Fault::Promise { j, with: PromiseRepl::Toggle }, 0, format!("promise[{}] toggled", j)));
+        v.push((Fault::Promise { j, with: PromiseRepl::Max }, 0, format!("promise[{}] = u64::MAX", j)));
     }
     for j in 0..msg.commitments.len() {
         for i in 0..j {
             v.push((Fault::SwapCommitments(i, j), 0, format!("order of commitments {} and {}", i, j)));
         }
     }
+    for bit in [0usize, 7, 255] {
+        v.push((Fault::GeneratorEncodingBit { k: None, bit }, 0, format!("bit {} of the encoding of H", bit)));
+        for k in 0..ext {
+            v.push((Fault::GeneratorEncodingBit { k: Some(k), bit }, 0, format!("bit {} of the encoding of G[{}]", bit, k)));
+        }
+    }
     let pt = |e: usize, first: usize, name: String, v: &mut Vec<(Fault, usize, String)>| {
+        // single bits of the encoding (the challenge derivation reads the bytes, whether or not they decode)
+        for bit in [0usize, 255] {
+            v.push((Fault::FlipBit { elem: e, bit }, first, format!("bit {} of {}", bit, name)));
+        }
         v.push((Fault::ReplacePoint { elem: e, with: PointRepl::Random }, first, name.clone()));
         v.push((Fault::ReplacePoint { elem: e, with: PointRepl::Sibling }, first, format!("{} (replaced by a sibling element)", name)));
     };
@@ -525,7 +536,7 @@ impl Check for C04 {
     fn required_probes(&self, _tier: Tier) -> Vec<&'static str> {
         vec![
             "verifier_context_label", "verifier_context_extra", "verifier_generator_h", "verifier_generator_g", "verifier_bits",
-            "verifier_replace_commitment", "verifier_promise", "verifier_swap_commitments", "verifier_replace_point",
+            "verifier_replace_commitment", "verifier_promise", "verifier_swap_commitments", "verifier_replace_point", "verifier_flip_bit", "verifier_generator_encoding_bit",
             "prover_side_perturbation", "batch_refused_before_challenges", "large_batch_distinct_contexts",
         ]
     }
